@@ -36,7 +36,7 @@ SHARE = {"c": ("-c", ".h"), "p": ("-p", ".inc"), "a": ("-a", ".inc")}
 
 
 def budget(tier):
-    return dict(examples=700 if tier == "quick" else 20000, shards=16)
+    return dict(examples=2400 if tier == "quick" else 30000, shards=16)
 
 
 # ------------------------------------------------------------------ generated programs
@@ -370,8 +370,8 @@ def fixed_cases(tier):
     radixes = [16, 8, 10, 2, 36, 7]
     phase = engine.seed_from_env() % 3
     for i, n in enumerate(corpus.names()):
-        if tier == "quick" and i % 3 != phase:
-            continue          # quick: a third of the corpus (rotating with the seed); thorough: all of it
+        if tier == "quick" and i % 3 == phase:
+            continue          # quick: two thirds of the corpus (rotating with the seed); thorough: all of it
         out.append(dict(kind="golden", test=n, radix=radixes[i % 6] if i % 2 else 16, share="cpa"[i % 3]))
     return out
 
